@@ -78,3 +78,66 @@ pub fn strip<T>(r: anyhow::Result<T>) -> Option<T> {
         }
     }
 }
+
+// ---------------------------------------------------------------------------------------------
+// libm stubs: memoised arbitrary functions constrained by the contract the properties need
+// ---------------------------------------------------------------------------------------------
+pub mod mono {
+    //! a memoised, monotone non-decreasing, NaN-free model of a real function on [0, +inf]:
+    //! equal arguments give equal results, larger arguments give results that are not smaller.
+    //! Used for `f64::ln` (C04 SetSketch step): nothing else about `ln` matters for register updates
+    //! except that it is a non-decreasing function of its argument.
+    pub const CAP: usize = 8;
+    pub static mut N: usize = 0;
+    pub static mut ARG: [f64; CAP] = [0.0; CAP];
+    pub static mut RES: [f64; CAP] = [0.0; CAP];
+
+    pub fn call(x: f64) -> f64 {
+        unsafe {
+            let r: f64 = kani::any();
+            kani::assume(!r.is_nan());
+            // sign contract of ln around 1 (needed for "x > 1 => register 0"): ln(x) <= 0 iff x <= 1
+            kani::assume((x > 1.0) == (r > 0.0));
+            macro_rules! consistent {
+                ($i:expr) => {
+                    if $i < N {
+                        if ARG[$i] == x {
+                            return RES[$i];
+                        }
+                        if ARG[$i] < x {
+                            kani::assume(RES[$i] <= r);
+                        }
+                        if ARG[$i] > x {
+                            kani::assume(RES[$i] >= r);
+                        }
+                    }
+                };
+            }
+            consistent!(0);
+            consistent!(1);
+            consistent!(2);
+            consistent!(3);
+            consistent!(4);
+            consistent!(5);
+            consistent!(6);
+            consistent!(7);
+            assert!(N < CAP, "mono stub: table full");
+            ARG[N] = x;
+            RES[N] = r;
+            N += 1;
+            r
+        }
+    }
+}
+
+pub fn ln_mono_stub(x: f64) -> f64 {
+    mono::call(x)
+}
+
+
+/// the u64 that `BuildHasherDefault<NoHashHasher>::hash_one(&item)` produces (the real hasher is
+/// called: on a little-endian target it is the byte-swapped item, not the item itself)
+pub fn nohash(item: u64) -> u64 {
+    use std::hash::BuildHasher;
+    std::hash::BuildHasherDefault::<crate::superminhasher::NoHashHasher>::default().hash_one(&item)
+}
